@@ -151,7 +151,7 @@ OrderDoc(new) ==
     i < j => new.slots[new.order[i] + 1].w >= new.slots[new.order[j] + 1].w
 
 RECURSIVE SumSizes(_, _)
-SumSizes(ss, i) == IF i = 0 THEN 0 ELSE ss[i].size + SumSizes(ss, i - 1)
+SumSizes(ss, i) == IF i = 0 THEN 0 ELSE (IF IsArg(ss[i]) THEN 0 ELSE ss[i].size) + SumSizes(ss, i - 1)     \* slots the allocator places
 BytesUsedDoc(new) == new.bused = SumSizes(new.slots, Len(new.slots))
 
 CalcFrame(new) ==
